@@ -9,7 +9,7 @@
    NOT satisfy the text: the _refuted theorems below are kernel-computed counterexamples, each replayed on the real
    resolve_dependencies and on node by corpus/C31/known_findings.json. *)
 From Coq Require Import List NArith.
-From SF Require Import Base.Str JsDeps.Model JsDeps.Proofs.
+From SF Require Import Base.Str JsDeps.Model JsDeps.Proofs JsDeps.Sound.
 Import ListNotations.
 Local Open Scope string_scope. Local Open Scope list_scope.
 
@@ -68,6 +68,36 @@ Example C31_paramref_example :
               deps_ref "inputs" "inputs" [SgSingle "a"; SgDot "length"] = ["a"].
 Proof. eexists. eexists. repeat split; vm_compute; reflexivity. Qed.
 
+(* The positive JavaScript half, on the syntactic fragment [in_fragment] (Model.v, section 4): function-free bodies
+   (any nesting of literals, identifiers, x.f with a non-reserved f, x["k"]/x['k'] with a key that strip leaves
+   unchanged, member chains on non-identifier bases that cannot be the inputs object, +, ?:, parentheses, x = e,
+   var, if/else, return) in which the inputs object travels only through identifier-to-identifier assignments,
+   [inputs] is never assigned, and inside a branch an identifier is only (re)bound to [inputs] itself.
+   For EVERY such body, EVERY inputs object and EVERY fuel: the analysis does not fail and a terminating evaluation
+   reads only fields of the dependency set.  Missing w.r.t. the property text (hence _partial): function
+   declarations / expressions / calls, and every construct of the _refuted theorems above. *)
+Theorem C31_sound_partial : forall inp n body c s,
+  in_fragment body = true ->
+  run inp n SSkip body = Ok c s ->
+  exists w, deps_js SSkip body = WOk w /\ incl (snd s) (dp w).
+Proof. exact sound_partial. Qed.
+Theorem C31_total_partial : forall body, in_fragment body = true -> exists w, deps_js SSkip body = WOk w.
+Proof. exact total_partial. Qed.
+
+(* a generated [safe] program of the fragment (aliases, re-binding to a string = deletion, if/else with re-binding
+   to inputs, ternary, quoted keys, a string mentioning inputs): the hypotheses are satisfiable, evaluation terminates *)
+Definition ex_frag : stmt :=
+  SSeq (SVar "x1") (SSeq (SExpr (EAssign "x1" I)) (SSeq (SVar "x2") (SSeq (SExpr (EAssign "x2" (EId "x1")))
+  (SSeq (SVarI "s3" (EAdd (EIdx (EId "x2") (EStr false "ab")) (EStr true "inputs.a")))
+  (SSeq (SIf (EDot (EId "x1") "z") (SExpr (EAssign "x2" I)) (SExpr (EAssign "s3" (EDot I "h"))))
+  (SSeq (SExpr (EAssign "x1" (EId "s3")))
+  (SRet (ECond (EDot I "b") (EIdx (EId "x2") (EStr true "k")) (EDot (EId "s3") "length"))))))))).
+Example C31_fragment_example :
+  in_fragment ex_frag = true /\
+  exists w c s, deps_js SSkip ex_frag = WOk w /\ run inp0 60 SSkip ex_frag = Ok c s /\
+                snd s = ["k"; "b"; "h"; "z"; "ab"] /\ dp w = ["k"; "b"; "h"; "z"; "ab"].
+Proof. split; [vm_compute; reflexivity|]. eexists. eexists. eexists. repeat split; vm_compute; reflexivity. Qed.
+
 Print Assumptions C31_computed_refuted.
 Print Assumptions C31_nested_delete_refuted.
 Print Assumptions C31_alias_refuted.
@@ -76,3 +106,5 @@ Print Assumptions C31_branch_delete_refuted.
 Print Assumptions C31_key_text_refuted.
 Print Assumptions C31_ref_index_refuted.
 Print Assumptions C31_paramref_sound.
+Print Assumptions C31_sound_partial.
+Print Assumptions C31_total_partial.
